@@ -33,7 +33,7 @@ def create_cli(desc: dict, workdir: Path, fmt: str = "yaml", guard: bool = False
 
     workdir = Path(workdir)
     inp = workdir / f"in.{fmt}"
-    out = workdir / "out.suit"
+    out = workdir / "out.v2.suit"   # a name with more than one dot is a legal output name
     if out.exists():
         out.unlink()
     with open(inp, "w", encoding="utf-8") as fh:
